@@ -129,6 +129,22 @@ pub fn enumerate<V: Full>(b: &Base, other_keys: &[Vec<u8>], full_key_flips: bool
             }
         }
     }
+    // Ed25519 scalar malleability: (R, S + L) must be rejected (RFC 8032 requires S < L); ECDSA's (r, n - s)
+    // is a different valid signature of the same message, which the specification permits, and is not in the set
+    if !b.local && (V::VER == 2 || V::VER == 4) && body.len() >= 64 {
+        const L: [u8; 32] = [0xed, 0xd3, 0xf5, 0x5c, 0x1a, 0x63, 0x12, 0x58, 0xd6, 0x9c, 0xf7, 0xa2, 0xde, 0xf9, 0xde, 0x14, 0, 0, 0, 0, 0, 0, 0, 0, 0, 0, 0, 0, 0, 0, 0, 0x10];
+        let mut nb = body.clone();
+        let off = nb.len() - 32;
+        let mut carry = 0u16;
+        for i in 0..32 {
+            let v = nb[off + i] as u16 + L[i] as u16 + carry;
+            nb[off + i] = v as u8;
+            carry = v >> 8;
+        }
+        if carry == 0 {
+            out.push(same("ed25519-s-plus-l", "signature scalar S replaced by S + L".into(), join_token(&hdr, &nb, ft.as_deref())));
+        }
+    }
     // F-foot: add / remove / replace
     if ftb.is_empty() {
         out.push(same("footer-add", "footer 'x' added".into(), join_token(&hdr, &body, Some(b"x"))));
